@@ -1,10 +1,9 @@
 (** The glue path of every command and API reader (Model/MultiTree.v: bufio.Reader.ReadLine
     chunks -> fileutils.ReadUntilSemiColon -> utils.ReadMultiTrees -> newick parser) on the
     writer's output: for every tree inside the quantifier of C01 whose text has no line feed,
-    for every buffer size >= 2, if the last chunk the buffered reader hands out is not a
-    full one, exactly one record is delivered, with the tree.  (When the text fills the last
-    chunk exactly, ReadLine reports it as a prefix, the next call reports EOF and the reader
-    loses the tree: see [glue_refuted] in Properties/C01.v.) *)
+    for every buffer size, exactly one record is delivered, with the tree -- also when the
+    text fills the last chunk exactly (ReadLine then reports a prefix and the next call EOF:
+    the case repaired by fix b303e0a in ReadUntilSemiColon). *)
 From Coq Require Import String Ascii ZArith QArith Bool Arith Lia List.
 From GT Require Import Base.UTree Model.Newick Model.MultiTree Spec.NewickSpec
      Proofs.NewickLex Proofs.NewickCanon Proofs.NewickTheorem Proofs.MultiTree.
@@ -58,55 +57,6 @@ Qed.
 Lemma no_lf_app : forall a b, no_lf (a ++ b) = no_lf a && no_lf b.
 Proof. intros. unfold no_lf. apply forall_chars_app. Qed.
 
-Lemma phys_reads_nolf : forall fuel bufsz s,
-    2 <= bufsz -> no_lf s = true -> String.length s < fuel ->
-    concat_reads (phys_reads fuel bufsz s) = s /\ init_true (phys_reads fuel bufsz s) /\
-    (s <> "" -> phys_reads fuel bufsz s <> []).
-Proof.
-  induction fuel; intros bufsz s Hb Hs Hf; [lia|].
-  destruct s as [|c0 s0]; [simpl; repeat split; congruence|].
-  cbn [phys_reads].
-  destruct (read_slice_nolf bufsz (String c0 s0) Hs) as [a [rest [He [Hsplit Hl]]]].
-  rewrite He.
-  assert (Hlen : String.length (String c0 s0) = String.length a + String.length rest).
-  { rewrite Hsplit at 1. apply length_app_s. }
-  assert (Hnl : no_lf a = true /\ no_lf rest = true).
-  { rewrite Hsplit in Hs. rewrite no_lf_app in Hs. apply andb_true_iff in Hs. exact Hs. }
-  destruct Hnl as [Hna Hnr].
-  destruct (Nat.eqb (String.length a) bufsz) eqn:El.
-  - apply Nat.eqb_eq in El.
-    destruct (ends_cr a) eqn:Ecr.
-    + (* the trailing CR is put back *)
-      pose proof (drop_last_cr_app a Ecr) as Ha.
-      assert (Hla : String.length a = String.length (drop_last_cr a) + 1).
-      { rewrite Ha at 1. rewrite length_app_s. reflexivity. }
-      destruct (IHfuel bufsz (String "013" rest) Hb) as [H1 [H2 H3]].
-      { unfold no_lf. simpl. exact Hnr. }
-      { cbn [String.length] in *. lia. }
-      split; [|split].
-      * simpl. rewrite H1. rewrite Hsplit. rewrite Ha at 2. rewrite app_assoc_s. reflexivity.
-      * specialize (H3 ltac:(discriminate)).
-        destruct (phys_reads fuel bufsz (String "013" rest)) as [|x r] eqn:Er; [congruence|].
-        simpl. split; [reflexivity|exact H2].
-      * intros _. discriminate.
-    + destruct (IHfuel bufsz rest Hb Hnr) as [H1 [H2 H3]].
-      { cbn [String.length] in *. lia. }
-      split; [|split].
-      * simpl. rewrite H1. symmetry. exact Hsplit.
-      * destruct (phys_reads fuel bufsz rest) as [|x r] eqn:Er; [exact I|].
-        simpl. split; [reflexivity|exact H2].
-      * intros _. discriminate.
-  - apply Nat.eqb_neq in El. destruct Hl as [Hl|[Hl Hrest]]; [congruence|]. subst rest.
-    rewrite app_empty_r in Hsplit. subst a.
-    split; [cbn [concat_reads]; apply app_empty_r|]. split; [exact I|intros _; discriminate].
-Qed.
-
-(** the last read is a complete one (the text does not end exactly at the end of a chunk) *)
-Definition last_complete (l : list phys_read) : bool :=
-  match rev l with (_, false) :: _ => true | _ => false end.
-
-(** without carriage returns the chunks are the consecutive [bufsz]-byte pieces: the last
-    one is complete iff the length is not a multiple of the buffer size *)
 Definition no_cr (s : string) : bool := forall_chars (fun c => negb (is_cr c)) s.
 
 Lemma ends_cr_nocr : forall a, no_cr a = true -> ends_cr a = false.
@@ -116,21 +66,14 @@ Proof.
   rewrite forall_chars_app in H. apply andb_true_iff in H. destruct H as [_ H]. discriminate.
 Qed.
 
-Lemma last_complete_cons : forall x l, l <> [] -> last_complete (x :: l) = last_complete l.
+(** a buffer of one byte cannot make progress on a carriage return (bufio's minimum is 16) *)
+Lemma phys_reads_nolf : forall fuel bufsz s,
+    1 <= bufsz -> (bufsz = 1 -> no_cr s = true) -> no_lf s = true -> String.length s < fuel ->
+    concat_reads (phys_reads fuel bufsz s) = s /\ init_true (phys_reads fuel bufsz s) /\
+    (s <> "" -> phys_reads fuel bufsz s <> []).
 Proof.
-  intros x l H. unfold last_complete. simpl.
-  destruct (rev l) as [|y r] eqn:E.
-  - apply (f_equal (@rev _)) in E. rewrite rev_involutive in E. simpl in E. congruence.
-  - reflexivity.
-Qed.
-
-Lemma phys_reads_last : forall fuel bufsz s,
-    1 <= bufsz -> no_lf s = true -> no_cr s = true -> String.length s < fuel ->
-    String.length s mod bufsz <> 0 ->
-    last_complete (phys_reads fuel bufsz s) = true.
-Proof.
-  induction fuel; intros bufsz s Hb Hs Hc Hf Hm; [lia|].
-  destruct s as [|c0 s0]; [simpl in Hm; rewrite Nat.mod_0_l in Hm by lia; congruence|].
+  induction fuel; intros bufsz s Hb Hcr1 Hs Hf; [lia|].
+  destruct s as [|c0 s0]; [simpl; repeat split; congruence|].
   cbn [phys_reads].
   destruct (read_slice_nolf bufsz (String c0 s0) Hs) as [a [rest [He [Hsplit Hl]]]].
   rewrite He.
@@ -138,24 +81,42 @@ Proof.
   { rewrite Hsplit at 1. apply length_app_s. }
   assert (Hnl : no_lf a = true /\ no_lf rest = true).
   { rewrite Hsplit in Hs. rewrite no_lf_app in Hs. apply andb_true_iff in Hs. exact Hs. }
-  assert (Hnc : no_cr a = true /\ no_cr rest = true).
-  { rewrite Hsplit in Hc. unfold no_cr in *. rewrite forall_chars_app in Hc. apply andb_true_iff in Hc. exact Hc. }
-  destruct Hnl as [Hna Hnr]. destruct Hnc as [Hca Hcr].
+  destruct Hnl as [Hna Hnr].
+  assert (Hcr1' : bufsz = 1 -> no_cr a = true /\ no_cr rest = true).
+  { intros E1. specialize (Hcr1 E1). rewrite Hsplit in Hcr1. unfold no_cr in *.
+    rewrite forall_chars_app in Hcr1. apply andb_true_iff in Hcr1. exact Hcr1. }
   destruct (Nat.eqb (String.length a) bufsz) eqn:El.
-  - apply Nat.eqb_eq in El. rewrite (ends_cr_nocr a Hca).
-    assert (Hm' : String.length rest mod bufsz <> 0).
-    { rewrite Hlen, El in Hm. rewrite Nat.add_comm in Hm.
-      rewrite <- (Nat.mul_1_l bufsz) in Hm at 1. rewrite Nat.mod_add in Hm by lia. exact Hm. }
-    assert (Hrne : rest <> "").
-    { intro; subst rest. simpl in Hm'. rewrite Nat.mod_0_l in Hm' by lia. congruence. }
-    assert (Hrl : String.length rest < fuel) by (cbn [String.length] in *; lia).
-    destruct bufsz as [|[|b]]; [lia| |].
-    + (* buffer of one byte *)
-      rewrite Nat.mod_1_r in Hm. congruence.
-    + destruct (phys_reads_nolf fuel (S (S b)) rest ltac:(lia) Hnr Hrl) as [_ [_ Hne]].
-      rewrite last_complete_cons by (apply Hne; exact Hrne).
-      apply IHfuel; try assumption; lia.
-  - reflexivity.
+  - apply Nat.eqb_eq in El.
+    destruct (ends_cr a) eqn:Ecr.
+    + (* the trailing CR is put back *)
+      assert (Hb2 : 2 <= bufsz).
+      { destruct (Nat.eq_dec bufsz 1) as [E1|]; [|lia].
+        destruct (Hcr1' E1) as [Hx _]. rewrite (ends_cr_nocr a Hx) in Ecr. discriminate. }
+      pose proof (drop_last_cr_app a Ecr) as Ha.
+      assert (Hla : String.length a = String.length (drop_last_cr a) + 1).
+      { rewrite Ha at 1. rewrite length_app_s. reflexivity. }
+      destruct (IHfuel bufsz (String "013" rest) Hb) as [H1 [H2 H3]].
+      { intros E1. lia. }
+      { unfold no_lf. simpl. exact Hnr. }
+      { cbn [String.length] in *. lia. }
+      split; [|split].
+      * simpl. rewrite H1. rewrite Hsplit. rewrite Ha at 2. rewrite app_assoc_s. reflexivity.
+      * specialize (H3 ltac:(discriminate)).
+        destruct (phys_reads fuel bufsz (String "013" rest)) as [|x r] eqn:Er; [congruence|].
+        simpl. split; [reflexivity|exact H2].
+      * intros _. discriminate.
+    + destruct (IHfuel bufsz rest Hb) as [H1 [H2 H3]].
+      { intros E1. apply (Hcr1' E1). }
+      { exact Hnr. }
+      { cbn [String.length] in *. lia. }
+      split; [|split].
+      * simpl. rewrite H1. symmetry. exact Hsplit.
+      * destruct (phys_reads fuel bufsz rest) as [|x r] eqn:Er; [exact I|].
+        simpl. split; [reflexivity|exact H2].
+      * intros _. discriminate.
+  - apply Nat.eqb_neq in El. destruct Hl as [Hl|[Hl Hrest]]; [congruence|]. subst rest.
+    rewrite app_empty_r in Hsplit. subst a.
+    split; [cbn [concat_reads]; apply app_empty_r|]. split; [exact I|intros _; discriminate].
 Qed.
 
 (** * ReadUntilSemiColon on such reads *)
@@ -176,18 +137,19 @@ Proof.
 Qed.
 
 Lemma rus_loop_all : forall reads ln last a,
-    reads <> [] -> init_true reads -> last_complete reads = true ->
+    reads <> [] -> init_true reads ->
     ln ++ concat_reads reads = a ++ ";" ->
     rus_loop reads ln last true = RLine (a ++ ";") [].
 Proof.
-  induction reads as [|[frag p] r IH]; intros ln last a Hne Hi Hl Hc; [congruence|].
+  induction reads as [|[frag p] r IH]; intros ln last a Hne Hi Hc; [congruence|].
   destruct r as [|x r'].
-  - (* the last read *)
-    unfold last_complete in Hl. simpl in Hl. destruct p; [discriminate|].
+  - (* the last read: a complete one, or a full chunk followed by the end of file *)
     simpl in Hc. rewrite app_empty_r in Hc.
-    simpl. rewrite Hc. rewrite last_char_semi. reflexivity.
+    cbn [rus_loop orb]. rewrite Hc. rewrite last_char_semi.
+    destruct p; cbn [rus_loop orb negb is_semi].
+    + rewrite last_char_semi. reflexivity.
+    + reflexivity.
   - simpl in Hi. destruct Hi as [Hp Hi]. subst p.
-    rewrite last_complete_cons in Hl by discriminate.
     cbn [rus_loop]. cbn [orb].
     destruct (last_char_ok (ln ++ frag) last) as [c Hcc]. rewrite Hcc.
     apply IH; try assumption; [discriminate|].
@@ -210,22 +172,22 @@ Section Glue.
     end.
 
   Theorem glue_read : forall bufsz t,
-      2 <= bufsz -> wfN numeric numok t = true ->
+      1 <= bufsz -> (bufsz = 1 -> no_cr (write fmt t) = true) ->
+      wfN numeric numok t = true ->
       no_lf (write fmt t) = true ->
-      last_complete (phys_reads (S (String.length (write fmt t))) bufsz (write fmt t)) = true ->
       read_multi nparse (phys_reads (S (String.length (write fmt t))) bufsz (write fmt t)) =
       MDone [ITree 0 (canon_root fmt parse_num t)].
   Proof.
-    intros bufsz t Hb Hwf Hlf Hlast.
+    intros bufsz t Hb Hb1 Hwf Hlf.
     set (s := write fmt t) in *.
-    destruct (phys_reads_nolf (S (String.length s)) bufsz s Hb Hlf ltac:(lia)) as [Hcat [Hinit Hne]].
+    destruct (phys_reads_nolf (S (String.length s)) bufsz s Hb Hb1 Hlf ltac:(lia)) as [Hcat [Hinit Hne]].
     assert (Hs : s = (write_node fmt t ++ write_coms (ucom t)) ++ ";").
     { unfold s, write. rewrite app_assoc_s. reflexivity. }
     assert (Hsne : s <> "").
     { rewrite Hs. destruct (write_node fmt t ++ write_coms (ucom t)); discriminate. }
     specialize (Hne Hsne).
     unfold read_multi, read_until_semicolon.
-    rewrite (rus_loop_all _ "" "0"%char (write_node fmt t ++ write_coms (ucom t)) Hne Hinit Hlast)
+    rewrite (rus_loop_all _ "" "0"%char (write_node fmt t ++ write_coms (ucom t)) Hne Hinit)
       by (cbn [append]; rewrite Hcat; exact Hs).
     rewrite <- Hs.
     destruct (phys_reads (S (String.length s)) bufsz s) as [|x r]; [congruence|].
@@ -234,15 +196,11 @@ Section Glue.
     reflexivity.
   Qed.
 
-  (** no carriage return either: the condition is on the length alone, any buffer size *)
+  (** buffers of at least two bytes (bufio's minimum is 16, its default 4096): no condition
+      on carriage returns or on the length *)
   Corollary glue_read_length : forall bufsz t,
-      2 <= bufsz -> wfN numeric numok t = true ->
-      no_lf (write fmt t) = true -> no_cr (write fmt t) = true ->
-      String.length (write fmt t) mod bufsz <> 0 ->
+      2 <= bufsz -> wfN numeric numok t = true -> no_lf (write fmt t) = true ->
       read_multi nparse (phys_reads (S (String.length (write fmt t))) bufsz (write fmt t)) =
       MDone [ITree 0 (canon_root fmt parse_num t)].
-  Proof.
-    intros bufsz t Hb Hwf Hlf Hcr Hm. apply glue_read; try assumption.
-    apply phys_reads_last; try assumption; lia.
-  Qed.
+  Proof. intros bufsz t Hb Hwf Hlf. apply glue_read; try assumption; lia. Qed.
 End Glue.
